@@ -284,9 +284,10 @@ def concretize_int(x, limit=64):
         return int(x)
     c = core.ctx()
     for _ in range(limit):
-        m = c.need_model()
-        v = T.ev(x.t, m)
-        if branch(T.ieq(x.t, v)):
+        v = core.peek_aux()      # replaying: the candidate value is part of the recorded decision
+        if v is None:
+            v = T.ev(x.t, c.need_model())
+        if branch(T.ieq(x.t, v), aux=v):
             return v
     raise Unsupported('concretize_int: domain larger than %d' % limit)
 
